@@ -203,6 +203,7 @@ func runC01(c *Ctx) {
 	// overwrite is a single Store — Send ranges the roots without the Broker lock, a Delete followed by a
 	// Store lets it see neither version
 	c.ruleOneSection("C01.section")
+	c.ruleGraphOfType("C01.scope")
 	c.ruleSingleStore("C01.commit")
 }
 
